@@ -5,6 +5,8 @@ import (
 	"encoding/hex"
 	"errors"
 	"fmt"
+	"sync/atomic"
+	"unsafe"
 
 	blsu "github.com/protolambda/bls12-381-util"
 	"github.com/protolambda/ztyp/codec"
@@ -76,15 +78,19 @@ type CachedPubkey struct {
 	decompressed *blsu.Pubkey
 }
 
+// Pubkey returns the decompressed pubkey, decompressing it on first use.
+// Safe for concurrent use: racing first uses both decompress, and publish the (equal) result atomically.
 func (c *CachedPubkey) Pubkey() (*blsu.Pubkey, error) {
-	if c.decompressed == nil {
-		pub, err := c.Compressed.Pubkey()
-		if err != nil {
-			return nil, err
-		}
-		c.decompressed = pub
+	addr := (*unsafe.Pointer)(unsafe.Pointer(&c.decompressed))
+	if p := (*blsu.Pubkey)(atomic.LoadPointer(addr)); p != nil {
+		return p, nil
 	}
-	return c.decompressed, nil
+	pub, err := c.Compressed.Pubkey()
+	if err != nil {
+		return nil, err
+	}
+	atomic.StorePointer(addr, unsafe.Pointer(pub))
+	return pub, nil
 }
 
 func ViewPubkey(pub *BLSPubkey) *BLSPubkeyView {
